@@ -22,8 +22,11 @@ EXPLANATION = (
 DECLINED = ["progress of a blocked writer under a continuous reader stream (fairness)"]
 ASSUMPTIONS = ["C04 and C05 rules (re-evaluated as part of this check)"]
 RULES_DOC = dict(common.SHARED_DOC)
+RULES_DOC["X7"] = common.X7_DOC
 RULES_DOC["X4"] = common.X4_DOC
 RULES_DOC["X5"] = common.X5_DOC
+RULES_DOC["R6"] = "= C11.R6: a locker that blocked inside the rwlock's mutex or condition variable continues with the stream it was resumed on (the wait helpers write *pp_local back on every return)"
+RULES_DOC["R7"] = "= C06.R5: the scheduler serving a blocked locker's pool does not stop while the locker is blocked, for every shared access mode of the pool: the unlock that releases it pushes it to a pool that is still consumed"
 RULES_DOC["R5"] = "= C06.R1-R4 and C11.R10: a locker that blocks is counted on the pool it will be resumed on, and the condition wait re-locks with the stream it was resumed on (no stale copy of the caller's stream)"
 RULES_DOC.update({
     "R1": "reader_count / write_flag are accessed only under ABTI_rwlock::mutex; every exit has released it",
@@ -413,6 +416,7 @@ def rule_R4(P, rep):
 
 
 def run(P, rep, tier):
+    common.rule_X7(P, rep, records=('ABTI_rwlock',))
     common.rule_widths(P, rep, [('ABTI_rwlock', 'reader_count')])
     common.rule_X4(P, rep)
     common.run_shared(P, rep, which=("X2", "X3"))
@@ -423,3 +427,5 @@ def run(P, rep, tier):
     common.borrow(rep, P, C06.rule_R1_R3_R4, "R5")
     common.borrow(rep, P, C06.rule_R2, "R5")
     common.borrow(rep, P, C11.rule_R10, "R5")
+    common.borrow(rep, P, C11.rule_R6, "R6")
+    common.borrow(rep, P, C06.rule_R5, "R7")
